@@ -70,7 +70,12 @@ CLAIMED.update({
                  "inside the admission section, shutdown and a late attempt behind it): once Do has returned nothing is attached. Over the fine-grained "
                  "proxyOut model: in ANY state, once cancelled, the reader goroutine and the forwarding loop can each leave within two of their own steps; "
                  "the pre-repair reader is refuted (stuck for ever after flood + stall + cancel). Last hop: the closure / gone notices reach the TERMINAL "
-                 "through the real Shell also while the operator has muted a flood.",
+                 "through the real Shell also while the operator has muted a flood. Event fan-out (events.go) has models of its own: Model/Events.v - what a listener "
+                 "receives is exactly the events processed while it is registered, whatever other listeners do, incl. periods with none at all (refinement to a "
+                 "one-listener specification; a pump that stops when nobody listens is refuted); Model/EventsCap.v - listeners with channels of any capacity reading at "
+                 "any pace never miss an event (invariant; a best-effort pump is refuted). Tied by listeners which come and go on the real Broker (0-1500 shells "
+                 "unheard, channels of 1024 / 2 / 1 read late), judged in Coq. At the HTTP level: half-attached shells which end leave the listener as freshly started, "
+                 "with and without -one-shell.",
          "note": TB + "goroutine/channel behaviour of proxyOut's reader is exercised, not modelled.",
          "technique": "Coq proof (invariants + per-step characterisations) + hook-serialised correspondence judged by vm_compute + leak observation"},
  "C02": {"text": "Coq theorems for every queue, writer kind and failure point: lines written (each + exactly one newline) followed by lines still "
@@ -91,7 +96,11 @@ CLAIMED.update({
                  "stalled-terminal cases (capacity 1-3, scripted drains) on it: chunks logged/shown per block and the reader's run-ahead must agree. Last hop (lib/opshell, Model/Terminal.v): theorem - "
                  "however a byte sequence is cut into reads, the terminal is written that sequence with LF rendered CR LF (x/term, raw mode; proved "
                  "lossless); tied by 200 chunkings of UTF-8 / non-UTF-8 / control bytes through the real Shell with its output captured, also with the whole "
-                 "Shell.Do running and a real SIGWINCH after every chunk; read scripts include runs of 99-250 zero-length reads. " + BRK,
+                 "Shell.Do running and a real SIGWINCH after every chunk; read scripts include runs of 99-250 zero-length reads; harness readers use their buffer as "
+                 "scratch space while waiting (a lingering reader of an earlier shell must not share memory with the attached one). Output after a mute (Ctrl+O) has "
+                 "ended is shown again, also for the first mute of a session (real Shell, virtual time). The REAL BINARY on a pty with a real TLS shell sending "
+                 "numbered lines: read fast, slowly, and with the tty switched to non-blocking by another holder and stalled - what the terminal shows is a prefix "
+                 "of what was sent. " + BRK,
          "note": TB + "relative speeds are explored as orders inside synctest, not proved over a queue model.",
          "technique": "Coq proof (invariants over all interleavings of a fine-grained concurrent model + coarse broker model) + read-script and stalled-terminal replay correspondence judged by vm_compute"},
  "C11": {"text": "Coq theorems: input 'Shell I/O' records = lines written, in order, minus at most the failing last one; each displayed chunk has "
@@ -100,9 +109,13 @@ CLAIMED.update({
                  "connect/disconnect records per stream and that the JSON output is one parsable object per line. PARTIAL: reconstruction of a "
                  "whole session from the log is checked by the monitor, not proved. Stalled-terminal and cancelled-flood cases: nothing undelivered is logged "
                  "(theorem c11_queue_logged_is_delivered over the fine-grained proxyOut model, every interleaving); attempts whose client has already hung up "
-                 "(request context done before admission) still get their records.",
+                 "(request context done before admission) still get their records. The log FILE: Model/LogFile.v - with O_APPEND the file is what was there "
+                 "followed by every record written through an open description, in write order, for any number of successive or overlapping runs (theorem; without "
+                 "O_APPEND refuted); the flags are read off the working tree by translator/openflags on every run (per-run obligation: append mode, O_CREATE, "
+                 "owner-only). The real binary runs twice on one -log file with failing TLS handshakes and lines of 10-3000 characters: every line of the file is "
+                 "JSON, every entered line has its exact record.",
          "note": TB + "slog's JSON escaping is standard library (framing checked, escaping not modelled).",
-         "technique": "Coq proof (per-step characterisations) + correspondence with a mirrored JSON handler judged by vm_compute"},
+         "technique": "Coq proof (per-step characterisations, append-mode file model) + open-flags translator obligation + correspondence with a mirrored JSON handler and the real log file judged by vm_compute"},
 })
 CLAIMED["C19"] = {"text": "Coq theorems over the mute machine for EVERY timed event list: status lines always written; without Ctrl+O nothing "
                  "is ever dropped; muting starts only with Ctrl+O; output is dropped iff muted at that instant; while muted the timer is armed for "
@@ -180,6 +193,7 @@ CLAIMED["C13"] = {"text": "Coq theorems: with a fingerprint configured a request
                  "whether the handler may run; directed sequences per server (TLS session resumption) and overlapping calls (a second call runs to completion "
                  "between the first's client configuration and its connect), each judged on its own configuration; impostor servers presenting the genuine "
                  "certificate's name and serial with another key, called with the genuine pin right after the genuine server; "
+                 "calls through a forwarding proxy (HTTPS_PROXY, CONNECT) to a C2 named c2.example; servers which answer 302 to an https server with another key; "
                  "http.DefaultClient/DefaultTransport compared with their initial state after every call. PARTIAL for the "
                  "TLS mechanics (handshake, VerifyConnection ordering): environment.",
          "note": TB + "crypto/tls handshake and x509 validation are the library's; SHA-256 collision resistance assumed.",
